@@ -83,7 +83,16 @@ def check(run, case):
     ref = b''
     for n_added, (k, v) in enumerate(vals):
         try:
-            getattr(b, ADD[k])(v)
+            if k == 'str' and case.get('buffer'):
+                # the bytes come from a buffer the application reuses (a bytearray filled by a read): after add_string() returns the
+                # buffer is the application's again
+                buf = bytearray(v)
+                b.add_string(buf)
+                for j in range(len(buf)):
+                    buf[j] ^= 0x5A
+                buf.extend(b'xx')
+            else:
+                getattr(b, ADD[k])(v)
         except Exception as e:  # noqa
             run.violation('add-raised:%s' % k, case, '%s(%r) raised %r' % (ADD[k], v, e))
             return False
@@ -149,6 +158,27 @@ def check(run, case):
                               'item %d (%s) decoded %r, packed %r' % (idx, k, got, v))
                 ok = False
                 break
+        if ok and case.get('rewind'):
+            # the decoder rewound and read again: the same values come out (its byte and word order are part of the object)
+            try:
+                d.reset()
+                for idx, (k, v) in enumerate(vals):
+                    run.count('comparisons')
+                    if k == 'bits':
+                        got = []
+                        for _ in range(len(v) // 8):
+                            got += d.decode_bits()
+                    elif k in ('str', 'text'):
+                        got = d.decode_string(len(P.layout(k, v, bo, wo)))
+                    else:
+                        got = getattr(d, DEC[k])()
+                    if not P.same_value(k, got, v):
+                        run.violation('decode-after-reset:%s:%s/%s:%s' % (k, bo, wo, transport), case, 'after reset() item %d (%s) decoded %r, packed %r' % (idx, k, got, v))
+                        ok = False
+                        break
+            except Exception as e:  # noqa
+                run.violation('decode-after-reset-raised:%s' % transport, case, repr(e))
+                ok = False
     return ok
 
 
@@ -180,6 +210,10 @@ def run(run):
                     case['peek'] = True
                 if i % 5 == 4 and len(items) > 1:
                     case['twin'] = True
+                if i % 4 == 2:
+                    case['rewind'] = True          # the decoder is reset() and everything is decoded a second time
+                if i % 4 == 1:
+                    case['buffer'] = True          # byte strings come from a bytearray the caller overwrites after add_string()
                 res = check(run, case)
                 for k, _ in items:
                     run.count('kind:%s:%s/%s' % (k, bo, wo))
